@@ -1641,3 +1641,187 @@ Proof.
   unfold parse_endchar. rewrite <- !app_assoc.
   destruct (first_move _); reflexivity.
 Qed.
+
+(* ================================================================== *)
+(* 11. CFF2 blend (partial: the operator itself, scalars given)       *)
+(* ================================================================== *)
+
+Lemma push_all_ok : forall e vs s, len (stk s) + len vs <= max_stack e ->
+  push_all e vs s = COk (set_stk s (stk s ++ vs)).
+Proof.
+  induction vs as [|v r IH]; intros s H.
+  - cbn [push_all]. rewrite app_nil_r, set_stk_id. reflexivity.
+  - cbn [push_all]. unfold push. rewrite len_cons in H. pose proof (len_nonneg r).
+    destruct (len (stk s) =? max_stack e) eqn:E; [lia|]. cbn [cbind]. rewrite IH.
+    + destruct s as [k0 w0 n0 ec0 sk0 vi0 sc0 p0 c0]. cbn [set_stk stk]. rewrite <- app_assoc. reflexivity.
+    + destruct s as [k0 w0 n0 ec0 sk0 vi0 sc0 p0 c0]. cbn [set_stk stk] in *.
+      rewrite len_app. change (len [v]) with 1. lia.
+Qed.
+
+Lemma skipn_nil' {A} (n : nat) : skipn n (@nil A) = [].
+Proof. destruct n; reflexivity. Qed.
+Lemma firstn_nil' {A} (n : nat) : firstn n (@nil A) = [].
+Proof. destruct n; reflexivity. Qed.
+Lemma dot_nil : forall sc, dot sc [] = 0.
+Proof. destruct sc; reflexivity. Qed.
+
+(* i-th blended value = i-th default + sum over the regions of scalar * (i-th group of k deltas) *)
+Lemma blend_vals_nth : forall defaults k sc rest i, (i < length defaults)%nat ->
+  nth i (blend_vals k sc defaults rest) 0 =
+  nth i defaults 0 + dot sc (firstn k (skipn (i * k) rest)).
+Proof.
+  induction defaults as [|d ds IH]; intros k sc rest i Hi; [cbn [length] in Hi; lia|].
+  cbn [blend_vals]. destruct i as [|i].
+  - cbn [Nat.mul skipn]. destruct rest; cbn [nth]; [rewrite firstn_nil', dot_nil; lia|reflexivity].
+  - cbn [length] in Hi. destruct rest as [|r0 rest'].
+    + cbn [nth]. rewrite IH by lia. rewrite !skipn_nil'. reflexivity.
+    + cbn [nth]. rewrite IH by lia. rewrite skipn_skipn'.
+      replace (i * k + k)%nat with (S i * k)%nat by (cbn [Nat.mul]; lia). reflexivity.
+Qed.
+
+Lemma blend_vals_length : forall defaults k sc rest,
+  length (blend_vals k sc defaults rest) = length defaults.
+Proof.
+  induction defaults as [|d ds IH]; intros k sc rest; [reflexivity|].
+  cbn [blend_vals]. destruct rest; cbn [length]; rewrite IH; reflexivity.
+Qed.
+
+Lemma max_stack_le : forall e, max_stack e <= CFF2_MAX_OPERANDS.
+Proof. intros e. unfold max_stack. destruct (e_kind e); vm_compute; congruence. Qed.
+
+(* The blend operator: n defaults, n groups of k deltas and n on the stack are replaced by the n
+   blended values (above whatever was below them). *)
+Lemma match_nonempty {A B} (l : list A) (a b : B) :
+  l <> [] -> match l with [] => a | _ :: _ => b end = b.
+Proof. destruct l; [congruence|reflexivity]. Qed.
+
+Theorem blend_spec : forall e sc s base defaults deltas nv n,
+  stk s = base ++ defaults ++ deltas ++ [nv] ->
+  try_as_u16 nv = Some n -> len defaults = n -> len deltas = n * len sc -> 0 < len sc ->
+  len base + n <= max_stack e ->
+  blend e sc s =
+  COk (set_stk s (base ++ blend_vals (Z.to_nat (len sc)) sc defaults deltas)).
+Proof.
+  intros e sc s base defaults deltas nv n Hstk Hn Hd Hdl Hk Hroom.
+  unfold blend.
+  assert (Hpop : pop s = COk (nv, set_stk s (base ++ defaults ++ deltas))).
+  { replace s with (set_stk (set_stk s (base ++ defaults ++ deltas))
+                            (stk (set_stk s (base ++ defaults ++ deltas)) ++ [nv])) at 1.
+    - apply pop_push.
+    - destruct s as [k0 w0 n0 ec0 sk0 vi0 sc0 p0 c0]. cbn [set_stk stk] in *. subst k0.
+      rewrite <- !app_assoc. reflexivity. }
+  rewrite match_nonempty.
+  2:{ rewrite Hstk. destruct base; [destruct defaults; [destruct deltas|]|]; discriminate. }
+  rewrite Hpop. cbn [cbind]. rewrite Hn.
+  pose proof (len_nonneg base). pose proof (len_nonneg defaults). pose proof (len_nonneg deltas).
+  pose proof (max_stack_le e).
+  destruct s as [k0 w0 n0 ec0 sk0 vi0 sc0 p0 c0]. cbn [set_stk stk] in *. clear Hpop.
+  rewrite !len_app, Hd, Hdl.
+  destruct (len base + (n + n * len sc) <? n * (len sc + 1)) eqn:E1; [lia|].
+  destruct (CFF2_MAX_OPERANDS <? n) eqn:E2; [lia|].
+  destruct (len sc =? 0) eqn:E3; [lia|].
+  replace (len base + (n + n * len sc) - n * (len sc + 1)) with (len base) by lia.
+  rewrite take_app_len, drop_app_len. rewrite <- Hd. rewrite take_app_len, drop_app_len.
+  rewrite push_all_ok.
+  - cbn [set_stk stk]. reflexivity.
+  - cbn [set_stk stk].
+    replace (len (blend_vals (Z.to_nat (len sc)) sc defaults deltas)) with (len defaults)
+      by (unfold len; rewrite blend_vals_length; reflexivity).
+    lia.
+Qed.
+
+(* with 16.16 operands (multiples of 2^-16) the weighted sum is exact: no rounding in `dot` *)
+Fixpoint dot_exact (scalars : list (option Z)) (deltas : list Z) : Z :=
+  match scalars, deltas with
+  | sc :: ss, d :: ds => (match sc with Some k => k * d | None => 0 end) + dot_exact ss ds
+  | _, _ => 0
+  end.
+
+Lemma dot_is_exact : forall sc ds, Forall (fun d => d mod SDEN = 0) ds ->
+  dot sc ds * SDEN = dot_exact sc ds.
+Proof.
+  induction sc as [|k sc IH]; intros ds H; [reflexivity|].
+  destruct ds as [|d ds]; [reflexivity|]. inversion H as [|? ? Hd Hds]; subst.
+  cbn [dot dot_exact]. rewrite Z.mul_add_distr_r, IH by exact Hds. f_equal.
+  destruct k as [k|]; [|reflexivity].
+  unfold SDEN in *. assert (Hm : (k * d) mod 4294967296 = 0).
+  { rewrite <- Z.mul_mod_idemp_r by lia. rewrite Hd, Z.mul_0_r. reflexivity. }
+  lia.
+Qed.
+
+(* ================================================================== *)
+(* 12. Equivalent operator forms and number encodings                 *)
+(* ================================================================== *)
+
+(* every operator can be rewritten with rmoveto / rlineto / rrcurveto only *)
+Definition prim_sop (p : prim) : sop :=
+  match p with
+  | PMove dx dy => SRMove dx dy
+  | PLine dx dy => SRLine [(dx, dy)]
+  | PCurve a b c d e f => SRRCurve [(a, b, c, d, e, f)]
+  end.
+Definition canon (o : sop) : list sop := map prim_sop (expand o).
+
+Lemma expand_prim_sop : forall ps, flat_map expand (map prim_sop ps) = ps.
+Proof.
+  induction ps as [|p r IH]; [reflexivity|]. cbn [map flat_map]. rewrite IH.
+  destruct p; reflexivity.
+Qed.
+
+Theorem operator_forms_equal : forall ops,
+  prog_path (flat_map canon ops) = prog_path ops.
+Proof.
+  intros ops. unfold prog_path. f_equal.
+  induction ops as [|o r IH]; [reflexivity|].
+  cbn [flat_map]. rewrite flat_map_app, IH. unfold canon. rewrite expand_prim_sop. reflexivity.
+Qed.
+
+(* instances the property text names *)
+Lemma hlineto_alternates : forall a b c,
+  expand (SHLine [a; b; c]) = expand (SRLine [(a, 0); (0, b); (c, 0)]).
+Proof. reflexivity. Qed.
+Lemma vlineto_alternates : forall a b c,
+  expand (SVLine [a; b; c]) = expand (SRLine [(0, a); (b, 0); (0, c)]).
+Proof. reflexivity. Qed.
+Lemma hhcurveto_odd_leading : forall dy1 a b c d a' b' c' d',
+  expand (SHHCurve (Some dy1) [(a, b, c, d); (a', b', c', d')]) =
+  expand (SRRCurve [(a, dy1, b, c, d, 0); (a', 0, b', c', d', 0)]).
+Proof. reflexivity. Qed.
+Lemma vvcurveto_odd_leading : forall dx1 a b c d,
+  expand (SVVCurve (Some dx1) [(a, b, c, d)]) = expand (SRRCurve [(dx1, a, b, c, 0, d)]).
+Proof. reflexivity. Qed.
+Lemma hvcurveto_alternating_tail : forall a b c d a' b' c' d' f,
+  expand (SHVCurve [(a, b, c, d); (a', b', c', d')] (Some f)) =
+  expand (SRRCurve [(a, 0, b, c, 0, d); (0, a', b', c', d', f)]).
+Proof. reflexivity. Qed.
+Lemma vhcurveto_alternating_tail : forall a b c d a' b' c' d' f,
+  expand (SVHCurve [(a, b, c, d); (a', b', c', d')] (Some f)) =
+  expand (SRRCurve [(0, a, b, c, d, 0); (a', 0, b', c', f, d')]).
+Proof. reflexivity. Qed.
+Lemma rcurveline_splits : forall l dx dy,
+  expand (SRCurveLine l dx dy) = expand (SRRCurve l) ++ expand (SRLine [(dx, dy)]).
+Proof. reflexivity. Qed.
+Lemma rlinecurve_splits : forall l c,
+  expand (SRLineCurve l c) = expand (SRLine l) ++ expand (SRRCurve [c]).
+Proof. reflexivity. Qed.
+Lemma flex_is_two_curves : forall c1 c2 fd, expand (SFlex c1 c2 fd) = expand (SRRCurve [c1; c2]).
+Proof. reflexivity. Qed.
+
+(* all encodings of a number are interchangeable in any charstring, at any point *)
+Theorem number_encodings_equal : forall b1 b2 v, encodes b1 v -> encodes b2 v ->
+  forall df e d rest s,
+  run (S df) e d (b1 ++ rest) s = run (S df) e d (b2 ++ rest) s.
+Proof.
+  intros b1 b2 v H1 H2 df e d rest s.
+  rewrite (run_num b1 v H1), (run_num b2 v H2). reflexivity.
+Qed.
+
+(* the width operand does not influence the outline *)
+Theorem width_prefix_ignored : forall e1 e2 w1 w2 ops wb1 wb2 body1 body2,
+  e_kind e1 = KCFF -> e_kind e2 = KCFF ->
+  nth_opt (e_glyphs e1) (e_gid e1) = Some (wb1 ++ body1 ++ [14]) ->
+  nth_opt (e_glyphs e2) (e_gid e2) = Some (wb2 ++ body2 ++ [14]) ->
+  enc_width w1 wb1 -> enc_width w2 wb2 -> enc_ops ops body1 -> enc_ops ops body2 ->
+  prog_wf CFF_MAX_OPERANDS w1 ops -> prog_wf CFF_MAX_OPERANDS w2 ops ->
+  run_glyph e1 = run_glyph e2.
+Proof. intros. eapply equivalent_programs_cff; eauto. Qed.
